@@ -18,6 +18,18 @@ CLAIMED = {
    technique='Rocq proof (induction over update sequences; parser invariant) + vm_compute correspondence',
    design='5/C10'),
 }
+CLAIMED['C11'] = dict(
+   text=('Theorems (closed under the global context): the naive in-place revision loop, naive/jax is_pareto_optimal_against (both '
+         'strictness modes), the ListOptimalTrials dominance matrix, nsga2/jax pareto_rank (= number of dominators, 0 iff optimal) and '
+         'sharded is_frontier (for every cut list descending from len(ys) to 0) all equal the definition "not dominated by any '
+         'point" for ALL finite point lists of NaN-free vectors of equal length incl. duplicates, ties and +-inf (C11_naive_correct, '
+         'C11_naive_against_*, C11_service_matrix_correct, C11_rank_*, C11_jax_against_correct, C11_frontier_correct). REFUTED with '
+         'kernel-checked witnesses: divide-and-conquer is_pareto_optimal on first-coordinate ties (C11_fast_refuted), is_frontier with '
+         'one shard, NaN objectives reported by the service matrix. FastPareto routines are modelled executable (fuel) and tied by '
+         'correspondence only: no correctness theorem for them yet (partial).'),
+   note=BASE_TB + ' numpy argsort modelled as stable sort (correspondence for the defective fast is_pareto_optimal restricted to tie-free inputs); np.linspace cut points taken from numpy.',
+   technique='Rocq proof (loop invariant + maximal-dominator argument; induction over shards) + vm_compute correspondence',
+   design='5/C11')
 ALL = ['C%02d' % i for i in range(1, 21)]
 m = {
  'version': 1,
